@@ -199,7 +199,7 @@ theorem metaLang_eq (c : Ctx) (start : Loc) :
              (head.children.findSome? fun ch =>
                match ch.elem? with
                | some me =>
-                 if c.tagName me == "meta".toStr && c.isHtmlTag he then metaLangScan me.attrs false none else none
+                 if c.tagName me == "meta".toStr && c.isHtmlTag me then metaLangScan me.attrs false none else none
                | none => none)) =
       (match (match H with | none => none | some html => findChildTag c html "head") with
        | none => none
